@@ -12,13 +12,50 @@ A = real.A
 from asynq.generator import async_generator, Value, list_of_generator, take_first, END_OF_GENERATOR  # noqa: E402
 
 
+class AnyEq(object):
+    """A payload with a permissive __eq__ (like unittest.mock.ANY): equal to everything."""
+
+    def __init__(self, n):
+        self.n = n
+
+    def __eq__(self, other):
+        return True
+
+    def __ne__(self, other):
+        return False
+
+    __hash__ = None
+
+    def __repr__(self):
+        return "AnyEq(%d)" % self.n
+
+
+def _payload(v):
+    return AnyEq(v[1]) if isinstance(v, (list, tuple)) and len(v) == 2 and v[0] == "anyeq" else v
+
+
+def _same(a, b):
+    """Exact comparison of delivered values against the reference (identity-free, eq-proof)."""
+    if isinstance(a, AnyEq) or isinstance(b, AnyEq):
+        return isinstance(a, AnyEq) and isinstance(b, AnyEq) and a.n == b.n
+    if isinstance(a, tuple) and isinstance(b, tuple) and len(a) == len(b):
+        return all(_same(x, y) for x, y in zip(a, b))
+    return type(a) is type(b) and a == b
+
+
+def _same_list(xs, ys):
+    return len(xs) == len(ys) and all(_same(x, y) for x, y in zip(xs, ys))
+
+
 def gen_body(rng, depth=0):
     """Body spec: list of ["v", x] | ["a", blocking] | ["nest", body]."""
     n = rng.choice([0, 1, 2, 3, 4, 5, 6])
     body = []
     for _ in range(n):
         r = rng.random()
-        if r < 0.45:
+        if r < 0.05:
+            body.append(["v", ["anyeq", rng.randint(0, 99)]])
+        elif r < 0.45:
             body.append(["v", rng.randint(0, 99)])
         elif r < 0.8 or (depth >= 1 and r < 0.9):
             body.append(["a", rng.random() < 0.6])
@@ -33,7 +70,7 @@ def ref_values(body):
     out = []
     for st in body:
         if st[0] == "v":
-            out.append(st[1])
+            out.append(_payload(st[1]))
         elif st[0] == "nest":
             out.extend(("n", v) for v in ref_values(st[1]))
     return out
@@ -104,7 +141,7 @@ class C17(object):
                 for idx, st in enumerate(body):
                     progress[0] = idx + 1
                     if st[0] == "v":
-                        yield Value(st[1])
+                        yield Value(_payload(st[1]))
                     elif st[0] == "p":
                         if top:
                             yield poke.asynq(gi)
@@ -154,7 +191,7 @@ class C17(object):
                     exp = ref[consumed:]
                     consumed = len(ref)
                     probes["list"] = probes.get("list", 0) + 1
-                    if vals != exp:
+                    if not _same_list(vals, exp):
                         out.append(("list-values", "list_of_generator gave %r, the Values in program order are %r (body %r)" % (vals, exp, body)))
                         return
                 elif op[0] == "take":
@@ -163,7 +200,7 @@ class C17(object):
                     vals = yield take_first.asynq(g, n)
                     exp = ref[consumed:consumed + n]
                     probes["take_first_%s" % ("0" if n == 0 else "n")] = probes.get("take_first_%s" % ("0" if n == 0 else "n"), 0) + 1
-                    if vals != exp:
+                    if not _same_list(vals, exp):
                         out.append(("take-values", "take_first(gen, %d) after %d values gave %r, expected %r (body %r)" % (n, consumed, vals, exp, body)))
                         return
                     consumed += len(exp)
@@ -214,7 +251,7 @@ class C17(object):
                             out.append(("premature-end", "END_OF_GENERATOR with %d of %d values delivered" % (consumed, len(ref))))
                             return
                     else:
-                        if consumed >= len(ref) or v != ref[consumed]:
+                        if consumed >= len(ref) or not _same(v, ref[consumed]):
                             out.append(("next-value", "next() #%d gave %r, expected %r (body %r)" % (consumed, v, ref[consumed] if consumed < len(ref) else "exhaustion", body)))
                             return
                         consumed += 1
